@@ -56,6 +56,7 @@ DOCS = [
     ("ok", json.dumps({"a": 1, "b": "xy"}).encode()),
     ("ok", json.dumps([{"a": 1, "b": "xyz"}, {"a": 2}, {"a": {"a": [1, None]}}]).encode()),
     ("ok", json.dumps({"é": "ü\U0001F600", "a": ["é"]}, ensure_ascii=False).encode("utf-8")),
+    ("ok", b'{"a": "\\ud83d", "b": "x\\udc00y"}'), ("ok", b'[{"a": 1, "b": "xy\\ud800"}, {"a": "\\u00e9\\u4e2d"}]'),
     ("ok", b"1"), ("ok", b"null"), ("ok", b'"s"'), ("ok", b"[]"),
     ("ok", b'  {"a": [1, 2, {"a": 3}]}\n'),
     ("deep", json.dumps(deep(150)).encode()),
@@ -129,7 +130,11 @@ def run_inprocess(argv, stdin_bytes, op):
     from jsonpath_rfc9535 import cli
 
     old = (sys.argv, sys.stdin, sys.stdout, sys.stderr)
-    so, se = io.StringIO(), io.StringIO()
+    # byte-backed text streams with the encoding a real process has: what cannot be encoded
+    # fails here exactly as it would on a real stdout / output file
+    sob, seb = io.BytesIO(), io.BytesIO()
+    so = io.TextIOWrapper(sob, encoding="utf-8", write_through=True)
+    se = io.TextIOWrapper(seb, encoding="utf-8", errors="backslashreplace", write_through=True)
     sys.argv = argv
     sys.stdin = io.TextIOWrapper(io.BytesIO(stdin_bytes), encoding="utf-8")
     sys.stdout, sys.stderr = so, se
@@ -152,7 +157,13 @@ def run_inprocess(argv, stdin_bytes, op):
     outfile = None
     if op is not None and os.path.exists(op):
         outfile = open(op, encoding="utf-8").read()
-    return {"exit": code, "stdout": so.getvalue(), "stderr": se.getvalue(), "outfile": outfile, "traceback": tb}
+    try:
+        so.flush()
+        se.flush()
+    except Exception:  # noqa: BLE001
+        pass
+    return {"exit": code, "stdout": sob.getvalue().decode("utf-8", "replace"),
+            "stderr": seb.getvalue().decode("utf-8", "replace"), "outfile": outfile, "traceback": tb}
 
 
 def run_subprocess(argv, stdin_bytes, op):
